@@ -118,10 +118,9 @@ TrRecheck ==
     /\ IsBuf(Ev.b) /\ Ev.b \in frozen
     /\ Assert(seen[Ev.b] # NoSeen, "harness error: recheck of a buffer whose content was never logged")
     /\ LET b == bufs[Ev.b] IN
+        \* seen[Ev.b] was accepted by TrContent as exactly the model's entry list and the model of a
+        \* frozen buffer never changes, so equality with seen is equality with the model
         Holds(/\ <<Ev.ks, Ev.ops, Ev.offs>> = seen[Ev.b]
-              /\ Ev.ks = EntKeys(b)
-              /\ Ev.ops = EntOps(b, Ev.ks)
-              /\ Ev.offs = EntOffs(b, Ev.ks)
               /\ Ev.len = Len(Ev.ks)
               /\ CheckOK(b, Ev.chk)
               /\ \/ Ev.lkops = <<>> /\ Ev.lkoffs = <<>>
